@@ -1004,8 +1004,10 @@ fn gen_atom(root: &M, cur: Option<&M>, r: &mut Rnd, depth: u32) -> Expr {
         let start = if use_root { root } else { cur.unwrap() };
         let mut steps = vec![];
         let mut front: Vec<Item> = vec![Item { v: start, sure: true }];
-        for _ in 0..(1 + r.below(2)) {
-            let s = gen_plain_step(front.first().map(|i| i.v), r);
+        // sub-paths of up to five steps (longer than many outer paths)
+        for _ in 0..(1 + [0, 0, 1, 1, 2, 3, 4][r.below(7)]) {
+            let guide = front.iter().find(|i| i.v.is_container()).or(front.first()).map(|i| i.v);
+            let s = gen_plain_step(guide, r);
             front = apply_step(root, front, &s).unwrap_or_default();
             steps.push(s);
         }
